@@ -2020,6 +2020,9 @@ async fn run_case(seed: u64, idx: u64, focus: &str, thorough: bool, fixes: &str)
         let leftover: Vec<(SocketAddr, usize)> = r.vh.exemptions.read().iter().map(|(a, c)| (*a, *c)).collect();
         if !leftover.is_empty() {
             r.w.failures.push(("C13".into(), format!("filter exemptions remain after every request and challenge has ended: {:?}", leftover)));
+            // (the same fact from the filter's side: unsolicited datagrams from these addresses skip
+            // both filter stages - quotas and ban lists - for as long as the node runs)
+            r.w.failures.push(("C18".into(), "an address stays exempt from the packet filter although nothing is awaited from it: its unsolicited datagrams bypass quotas and bans".into()));
         }
         let unsettled: Vec<u64> = r.w.reqs.iter().filter(|q| q.external && q.terminal != 1).map(|q| q.rid).collect();
         for q in r.w.reqs.iter().filter(|q| q.external) {
